@@ -30,12 +30,13 @@ def scenarios(rng, tier):
     return [(s.text(), {})]
 def project(blk, name, meta):
     if blk.fault: return ('fault',)
-    if blk.op.startswith('frame'): return tuple(blk.acts)
+    if blk.op.startswith('frame'): return send_opcodes(blk)
     return ()
 def per_ctx(ib, ctx):
     return [(b.op, tuple(b.acts)) for b in ib if b.op.startswith('frame %d ' % ctx)]
 def oracle(name, ib, mb, meta):
     base, _, tag = name.partition('~')
+    if meta.get('shrinking'): return []       # cross-scenario comparison: shortened variants say nothing
     if tag in ('a0', 'a1'):
         _alone[(base, int(tag[1]))] = per_ctx(ib, int(tag[1])); return []
     fails = []
